@@ -1,1 +1,546 @@
-//! Shared Datalog program generator (filled in with Group A).
+//! Shared Datalog program generator for Group A (C01, C02, C04, C06, C07, C08, C34).
+//! Programs are generated as an AST that prints both as IQL text (for the engine) and as a Coq
+//! term of type `program` (Model/Datalog.v). Shape-first: a dependency-graph shape is drawn first
+//! (chain, diamond, self-loop, 2-cycle, negation below recursion, ...), then filled with clauses.
+use crate::{coq_list, coq_n, coq_z, Rng};
+use inputlayer::value::{Tuple, Value};
+
+#[derive(Clone, Debug, PartialEq)]
+pub enum Term {
+    Var(u32),
+    Int(i64),
+    Str(String),
+    Wild,
+}
+#[derive(Clone, Copy, Debug, PartialEq)]
+pub enum CmpOp {
+    Eq,
+    Ne,
+    Lt,
+    Le,
+    Gt,
+    Ge,
+}
+#[derive(Clone, Debug, PartialEq)]
+pub enum AExp {
+    Var(u32),
+    Const(i64),
+    Add(Box<AExp>, Box<AExp>),
+    Sub(Box<AExp>, Box<AExp>),
+    Mul(Box<AExp>, Box<AExp>),
+}
+#[derive(Clone, Debug, PartialEq)]
+pub enum Lit {
+    Pos(u32, Vec<Term>),
+    Neg(u32, Vec<Term>),
+    Cmp(CmpOp, Term, Term),
+    Assign(u32, AExp),
+}
+#[derive(Clone, Copy, Debug, PartialEq)]
+pub enum AggFun {
+    Count,
+    Sum,
+    Min,
+    Max,
+    CountDistinct,
+}
+#[derive(Clone, Debug, PartialEq)]
+pub enum HTerm {
+    Var(u32),
+    Int(i64),
+    Str(String),
+    Agg(AggFun, u32),
+}
+#[derive(Clone, Debug, PartialEq)]
+pub struct Clause {
+    pub head: u32,
+    pub args: Vec<HTerm>,
+    pub body: Vec<Lit>,
+}
+#[derive(Clone, Debug)]
+pub struct Program {
+    pub clauses: Vec<Clause>,
+}
+pub type Edb = Vec<(u32, Vec<Tuple>)>;
+
+/// relation ids: 0..=9 EDB (`e<i>`), 10..=89 IDB (`p<i>`), 99 the query head `q`
+pub fn rel_name(r: u32) -> String {
+    if r < 10 {
+        format!("e{}", r)
+    } else if r == 99 {
+        "q".to_string()
+    } else {
+        format!("p{}", r)
+    }
+}
+pub fn var_name(v: u32) -> String {
+    format!("X{}", v)
+}
+
+impl Term {
+    pub fn iql(&self) -> String {
+        match self {
+            Term::Var(v) => var_name(*v),
+            Term::Int(i) => format!("{}", i),
+            Term::Str(s) => format!("\"{}\"", s),
+            Term::Wild => "_".into(),
+        }
+    }
+    pub fn coq(&self) -> String {
+        match self {
+            Term::Var(v) => format!("TVar {}", coq_n(*v as u128)),
+            Term::Int(i) => format!("TConst (VI64 {})", coq_z(*i as i128)),
+            Term::Str(s) => format!("TConst (VStr {})", crate::coq_str(s)),
+            Term::Wild => "TWild".into(),
+        }
+    }
+}
+impl CmpOp {
+    pub fn iql(&self) -> &'static str {
+        match self {
+            CmpOp::Eq => "=",
+            CmpOp::Ne => "!=",
+            CmpOp::Lt => "<",
+            CmpOp::Le => "<=",
+            CmpOp::Gt => ">",
+            CmpOp::Ge => ">=",
+        }
+    }
+    pub fn coq(&self) -> &'static str {
+        match self {
+            CmpOp::Eq => "OEq",
+            CmpOp::Ne => "ONe",
+            CmpOp::Lt => "OLt",
+            CmpOp::Le => "OLe",
+            CmpOp::Gt => "OGt",
+            CmpOp::Ge => "OGe",
+        }
+    }
+}
+impl AExp {
+    pub fn iql(&self) -> String {
+        match self {
+            AExp::Var(v) => var_name(*v),
+            AExp::Const(c) => format!("{}", c),
+            AExp::Add(a, b) => format!("{} + {}", a.iql_paren(), b.iql_paren()),
+            AExp::Sub(a, b) => format!("{} - {}", a.iql_paren(), b.iql_paren()),
+            AExp::Mul(a, b) => format!("{} * {}", a.iql_paren(), b.iql_paren()),
+        }
+    }
+    fn iql_paren(&self) -> String {
+        match self {
+            AExp::Var(_) | AExp::Const(_) => self.iql(),
+            _ => format!("({})", self.iql()),
+        }
+    }
+    pub fn coq(&self) -> String {
+        match self {
+            AExp::Var(v) => format!("(AVar {})", coq_n(*v as u128)),
+            AExp::Const(c) => format!("(AConst {})", coq_z(*c as i128)),
+            AExp::Add(a, b) => format!("(AAdd {} {})", a.coq(), b.coq()),
+            AExp::Sub(a, b) => format!("(ASub {} {})", a.coq(), b.coq()),
+            AExp::Mul(a, b) => format!("(AMul {} {})", a.coq(), b.coq()),
+        }
+    }
+}
+fn terms_iql(ts: &[Term]) -> String {
+    ts.iter().map(|t| t.iql()).collect::<Vec<_>>().join(", ")
+}
+fn terms_coq(ts: &[Term]) -> String {
+    coq_list(&ts.iter().map(|t| t.coq()).collect::<Vec<_>>())
+}
+impl Lit {
+    pub fn iql(&self) -> String {
+        match self {
+            Lit::Pos(r, a) => format!("{}({})", rel_name(*r), terms_iql(a)),
+            Lit::Neg(r, a) => format!("!{}({})", rel_name(*r), terms_iql(a)),
+            Lit::Cmp(op, l, r) => format!("{} {} {}", l.iql(), op.iql(), r.iql()),
+            Lit::Assign(v, e) => format!("{} = {}", var_name(*v), e.iql()),
+        }
+    }
+    pub fn coq(&self) -> String {
+        match self {
+            Lit::Pos(r, a) => format!("LPos {} {}", coq_n(*r as u128), terms_coq(a)),
+            Lit::Neg(r, a) => format!("LNeg {} {}", coq_n(*r as u128), terms_coq(a)),
+            Lit::Cmp(op, l, r) => format!("LCmp {} ({}) ({})", op.coq(), l.coq(), r.coq()),
+            Lit::Assign(v, e) => format!("LAssign {} {}", coq_n(*v as u128), e.coq()),
+        }
+    }
+}
+impl AggFun {
+    pub fn iql(&self) -> &'static str {
+        match self {
+            AggFun::Count => "count",
+            AggFun::Sum => "sum",
+            AggFun::Min => "min",
+            AggFun::Max => "max",
+            AggFun::CountDistinct => "count_distinct",
+        }
+    }
+    pub fn coq(&self) -> &'static str {
+        match self {
+            AggFun::Count => "ACount",
+            AggFun::Sum => "ASum",
+            AggFun::Min => "AMin",
+            AggFun::Max => "AMax",
+            AggFun::CountDistinct => "ACountDistinct",
+        }
+    }
+}
+impl HTerm {
+    pub fn iql(&self) -> String {
+        match self {
+            HTerm::Var(v) => var_name(*v),
+            HTerm::Int(i) => format!("{}", i),
+            HTerm::Str(s) => format!("\"{}\"", s),
+            HTerm::Agg(f, v) => format!("{}<{}>", f.iql(), var_name(*v)),
+        }
+    }
+    pub fn coq(&self) -> String {
+        match self {
+            HTerm::Var(v) => format!("HVar {}", coq_n(*v as u128)),
+            HTerm::Int(i) => format!("HConst (VI64 {})", coq_z(*i as i128)),
+            HTerm::Str(s) => format!("HConst (VStr {})", crate::coq_str(s)),
+            HTerm::Agg(f, v) => format!("HAgg {} {}", f.coq(), coq_n(*v as u128)),
+        }
+    }
+}
+impl Clause {
+    pub fn iql(&self) -> String {
+        format!(
+            "{}({}) <- {}",
+            rel_name(self.head),
+            self.args.iter().map(|a| a.iql()).collect::<Vec<_>>().join(", "),
+            self.body.iter().map(|l| l.iql()).collect::<Vec<_>>().join(", ")
+        )
+    }
+    pub fn coq(&self) -> String {
+        format!(
+            "{{| chead := {}; cargs := {}; cbody := {} |}}",
+            coq_n(self.head as u128),
+            coq_list(&self.args.iter().map(|a| a.coq()).collect::<Vec<_>>()),
+            coq_list(&self.body.iter().map(|l| l.coq()).collect::<Vec<_>>())
+        )
+    }
+    pub fn refs(&self) -> Vec<(u32, bool)> {
+        self.body
+            .iter()
+            .filter_map(|l| match l {
+                Lit::Pos(r, _) => Some((*r, false)),
+                Lit::Neg(r, _) => Some((*r, true)),
+                _ => None,
+            })
+            .collect()
+    }
+}
+impl Program {
+    pub fn iql(&self) -> String {
+        self.clauses.iter().map(|c| c.iql()).collect::<Vec<_>>().join("\n")
+    }
+    pub fn coq(&self) -> String {
+        coq_list(&self.clauses.iter().map(|c| c.coq()).collect::<Vec<_>>())
+    }
+    pub fn heads(&self) -> Vec<u32> {
+        let mut v = vec![];
+        for c in &self.clauses {
+            if !v.contains(&c.head) {
+                v.push(c.head);
+            }
+        }
+        v
+    }
+    pub fn has_neg(&self) -> bool {
+        self.clauses.iter().any(|c| c.refs().iter().any(|r| r.1))
+    }
+    pub fn has_agg(&self) -> bool {
+        self.clauses.iter().any(|c| c.args.iter().any(|a| matches!(a, HTerm::Agg(..))))
+    }
+    pub fn self_recursive(&self) -> bool {
+        self.clauses.iter().any(|c| c.refs().iter().any(|r| r.0 == c.head))
+    }
+    /// two distinct heads that reach each other
+    pub fn mutual(&self) -> bool {
+        let hs = self.heads();
+        let reach = |a: u32| -> Vec<u32> {
+            let mut seen: Vec<u32> = vec![];
+            let mut front = vec![a];
+            while let Some(x) = front.pop() {
+                for c in self.clauses.iter().filter(|c| c.head == x) {
+                    for (r, _) in c.refs() {
+                        if hs.contains(&r) && !seen.contains(&r) {
+                            seen.push(r);
+                            front.push(r);
+                        }
+                    }
+                }
+            }
+            seen
+        };
+        for &a in &hs {
+            for b in reach(a) {
+                if a != b && reach(b).contains(&a) {
+                    return true;
+                }
+            }
+        }
+        false
+    }
+}
+
+pub fn edb_coq(edb: &Edb) -> String {
+    let v: Vec<String> = edb.iter().map(|(r, ts)| format!("({}, {})", coq_n(*r as u128), crate::coq_tuples(ts))).collect();
+    coq_list(&v)
+}
+pub fn edb_json(edb: &Edb) -> serde_json::Value {
+    let m: Vec<serde_json::Value> = edb
+        .iter()
+        .map(|(r, ts)| serde_json::json!({"rel": rel_name(*r), "tuples": ts.iter().map(|t| format!("{:?}", t.values())).collect::<Vec<_>>()}))
+        .collect();
+    serde_json::Value::Array(m)
+}
+
+pub struct GenCfg {
+    pub allow_neg: bool,
+    pub allow_agg: bool,
+    pub allow_mutual: bool,
+    pub allow_wild: bool,
+    pub allow_arith: bool,
+    pub allow_strings: bool,
+}
+impl Default for GenCfg {
+    fn default() -> Self {
+        GenCfg { allow_neg: true, allow_agg: false, allow_mutual: true, allow_wild: true, allow_arith: true, allow_strings: true }
+    }
+}
+
+pub const EDB_ARITY: [usize; 4] = [2, 2, 1, 3];
+
+pub fn gen_edb(r: &mut Rng, strings: bool) -> Edb {
+    let dom = r.range(2, 4);
+    let mut edb = vec![];
+    for (i, &ar) in EDB_ARITY.iter().enumerate() {
+        let n = if r.chance(1, 12) { 0 } else { r.range(3, 9) };
+        let mut ts: Vec<Tuple> = vec![];
+        for _ in 0..n {
+            let t = Tuple::new(
+                (0..ar)
+                    .map(|c| {
+                        if strings && i == 3 && c == 2 {
+                            Value::String(["a", "b", "c"][r.below(3) as usize].into())
+                        } else {
+                            Value::Int64(r.range(0, dom))
+                        }
+                    })
+                    .collect(),
+            );
+            if !ts.contains(&t) {
+                ts.push(t);
+            }
+        }
+        edb.push((i as u32, ts));
+    }
+    edb
+}
+
+struct Ctx<'a> {
+    r: &'a mut Rng,
+    cfg: &'a GenCfg,
+    /// this program uses the string column: then no arithmetic and only =/!= comparisons
+    /// (arithmetic or ordering on strings is unspecified)
+    strings: bool,
+    arity: std::collections::BTreeMap<u32, usize>,
+}
+
+impl<'a> Ctx<'a> {
+    fn atom(&mut self, rel: u32, bound: &mut Vec<u32>, fresh_ok: bool) -> Vec<Term> {
+        let ar = self.arity[&rel];
+        let mut args = vec![];
+        for c in 0..ar {
+            let is_str_col = rel == 3 && c == 2 && self.strings;
+            let roll = self.r.below(20);
+            if roll == 0 && self.cfg.allow_wild {
+                args.push(Term::Wild);
+            } else if roll <= 1 {
+                if is_str_col {
+                    args.push(Term::Str(["a", "b"][self.r.below(2) as usize].into()));
+                } else {
+                    args.push(Term::Int(self.r.range(0, 3)));
+                }
+            } else if !bound.is_empty() && (self.r.chance(1, 2) || !fresh_ok) {
+                args.push(Term::Var(*self.r.pick(bound)));
+            } else {
+                let v = (0..6).find(|v| !bound.contains(v)).unwrap_or(0);
+                if !bound.contains(&v) {
+                    bound.push(v);
+                }
+                args.push(Term::Var(v));
+            }
+        }
+        args
+    }
+
+    /// one clause for `head`; positive atoms drawn from `pos_rels`, negated ones from `neg_rels`
+    fn clause(&mut self, head: u32, pos_rels: &[u32], neg_rels: &[u32], must_use: Option<u32>, arith: bool) -> Clause {
+        let mut bound: Vec<u32> = vec![];
+        let mut body = vec![];
+        let npos = match self.r.below(20) { 0..=7 => 1, 8..=16 => 2, _ => 3 } as usize;
+        let mut rels: Vec<u32> = (0..npos).map(|_| *self.r.pick(pos_rels)).collect();
+        if let Some(m) = must_use {
+            let k = self.r.below(rels.len() as u64) as usize;
+            rels[k] = m;
+        }
+        for rel in rels {
+            let a = self.atom(rel, &mut bound, true);
+            body.push(Lit::Pos(rel, a));
+        }
+        if bound.is_empty() {
+            // make sure at least one variable is bound
+            let rel = *self.r.pick(pos_rels);
+            let ar = self.arity[&rel];
+            let a: Vec<Term> = (0..ar).map(|c| Term::Var(c as u32)).collect();
+            for c in 0..ar {
+                bound.push(c as u32);
+            }
+            body.push(Lit::Pos(rel, a));
+        }
+        // assignment V = X + c (V fresh), only where the caller allows arithmetic
+        let int_bound: Vec<u32> = bound.clone();
+        if arith && self.cfg.allow_arith && !self.strings && self.r.chance(1, 4) {
+            let x = *self.r.pick(&int_bound);
+            let v = (0..8).find(|v| !bound.contains(v)).unwrap();
+            let e = match self.r.below(3) {
+                0 => AExp::Add(Box::new(AExp::Var(x)), Box::new(AExp::Const(self.r.range(0, 2)))),
+                1 => AExp::Sub(Box::new(AExp::Var(x)), Box::new(AExp::Const(self.r.range(0, 2)))),
+                _ => {
+                    let y = *self.r.pick(&int_bound);
+                    AExp::Mul(Box::new(AExp::Var(x)), Box::new(AExp::Var(y)))
+                }
+            };
+            body.push(Lit::Assign(v, e));
+            bound.push(v);
+        }
+        if self.r.chance(1, 4) {
+            let x = *self.r.pick(&bound);
+            let op = if self.strings { *self.r.pick(&[CmpOp::Eq, CmpOp::Ne]) } else { *self.r.pick(&[CmpOp::Eq, CmpOp::Ne, CmpOp::Lt, CmpOp::Le, CmpOp::Gt, CmpOp::Ge]) };
+            let rhs = if self.r.chance(1, 2) { Term::Int(self.r.range(0, 4)) } else { Term::Var(*self.r.pick(&bound)) };
+            body.push(Lit::Cmp(op, Term::Var(x), rhs));
+        }
+        if self.cfg.allow_neg && !neg_rels.is_empty() && self.r.chance(1, 4) {
+            let rel = *self.r.pick(neg_rels);
+            let mut b2 = bound.clone();
+            let mut a = self.atom(rel, &mut b2, false);
+            // negated atoms must be range-restricted: no fresh variables
+            for t in a.iter_mut() {
+                if let Term::Var(v) = t {
+                    if !bound.contains(v) {
+                        *t = Term::Var(*self.r.pick(&bound));
+                    }
+                }
+            }
+            // the engine rejects a negated atom that shares no variable with the positive atoms
+            // ("Negation requires at least one shared variable"): keep at least one variable
+            if !a.iter().any(|t| matches!(t, Term::Var(_))) {
+                let k = self.r.below(a.len() as u64) as usize;
+                a[k] = Term::Var(*self.r.pick(&bound));
+            }
+            body.push(Lit::Neg(rel, a));
+        }
+        let ar = self.arity[&head];
+        let args: Vec<HTerm> = (0..ar)
+            .map(|_| if self.r.chance(1, 10) { HTerm::Int(self.r.range(0, 3)) } else { HTerm::Var(*self.r.pick(&bound)) })
+            .collect();
+        Clause { head, args, body }
+    }
+}
+
+/// A random stratified program whose last clause is the query `q(..) <- ..`.
+pub fn gen_program(r: &mut Rng, cfg: &GenCfg) -> (Program, Vec<&'static str>) {
+    let mut tags = vec![];
+    let mut arity = std::collections::BTreeMap::new();
+    for (i, a) in EDB_ARITY.iter().enumerate() {
+        arity.insert(i as u32, *a);
+    }
+    let nheads = r.range(1, 4) as u32;
+    let heads: Vec<u32> = (0..nheads).map(|i| 10 + i).collect();
+    for &h in &heads {
+        arity.insert(h, r.range(1, 3) as usize);
+    }
+    arity.insert(99, r.range(1, 3) as usize);
+    // shape
+    let mutual = cfg.allow_mutual && nheads >= 2 && r.chance(1, 8);
+    let mut self_rec: Vec<bool> = heads.iter().map(|_| r.chance(1, 3)).collect();
+    if mutual {
+        tags.push("mutual");
+        self_rec[0] = false;
+    }
+    let edbs: Vec<u32> = vec![0, 1, 2, 3];
+    let strings = cfg.allow_strings && r.chance(1, 3);
+    if strings {
+        tags.push("strings");
+    }
+    let mut cx = Ctx { r, cfg, strings, arity };
+    let mut clauses = vec![];
+    for (i, &h) in heads.iter().enumerate() {
+        let lower: Vec<u32> = heads[..i].to_vec();
+        let mut pos: Vec<u32> = edbs.clone();
+        pos.extend(lower.iter().cloned());
+        pos.extend(lower.iter().cloned()); // bias toward IDB dependencies
+        // in the 2-cycle shape the first two heads are one SCC: negating a lower head there would be
+        // recursion through negation, so they only negate stored relations
+        let neg: Vec<u32> = if mutual && i <= 1 { edbs.clone() } else { edbs.iter().cloned().chain(lower.iter().cloned()).collect() };
+        let nclauses = cx.r.range(1, 3);
+        let is_rec = self_rec[i];
+        for k in 0..nclauses {
+            let recursive_clause = is_rec && (k > 0 || nclauses == 1 && cx.r.chance(1, 6));
+            let c = if recursive_clause {
+                let mut p2 = pos.clone();
+                p2.push(h);
+                cx.clause(h, &p2, &neg, Some(h), false)
+            } else if mutual && i == 0 && k == 0 {
+                // forward reference to the next head: closes a 2-cycle with heads[1]
+                let mut p2 = pos.clone();
+                p2.push(heads[1]);
+                cx.clause(h, &p2, &[], Some(heads[1]), false)
+            } else if mutual && i == 1 && k == 0 {
+                cx.clause(h, &pos, &[], Some(heads[0]), false)
+            } else {
+                cx.clause(h, &pos, &neg, None, !is_rec)
+            };
+            clauses.push(c);
+        }
+        if is_rec && clauses.iter().any(|c| c.head == h && c.refs().iter().any(|x| x.0 == h)) {
+            if !tags.contains(&"self-recursive") {
+                tags.push("self-recursive");
+            }
+        }
+    }
+    // query
+    let mut pos: Vec<u32> = heads.clone();
+    pos.extend(heads.iter().cloned());
+    pos.push(*cx.r.pick(&edbs));
+    let neg: Vec<u32> = edbs.iter().cloned().chain(heads.iter().cloned()).collect();
+    let last = *heads.last().unwrap();
+    let q = cx.clause(99, &pos, &neg, Some(last), true);
+    clauses.push(q);
+    let p = Program { clauses };
+    if p.has_neg() {
+        tags.push("negation");
+    }
+    if p.clauses.iter().any(|c| c.body.iter().any(|l| matches!(l, Lit::Assign(..)))) {
+        tags.push("arith");
+    }
+    if p.clauses.iter().any(|c| c.body.iter().any(|l| matches!(l, Lit::Pos(_, a) | Lit::Neg(_, a) if a.contains(&Term::Wild)))) {
+        tags.push("wildcard");
+    }
+    let hs = p.heads();
+    if hs.iter().any(|h| p.clauses.iter().filter(|c| c.head == *h).count() > 1) {
+        tags.push("multi-clause-head");
+    }
+    (p, tags)
+}
+
+pub fn tuples_key(ts: &[Tuple]) -> String {
+    let mut v: Vec<String> = ts.iter().map(|t| format!("{:?}", t.values())).collect();
+    v.sort();
+    v.join(";")
+}
